@@ -171,6 +171,13 @@ func oracleOnce(k *know, dump []string) []string {
 				add("reported", "", "%s: no augment-not-found error at the statement; errors: %s", augDesc(a), errStrings(errs))
 			}
 		}
+		// an augment whose target exists (nothing a generated set does to a colliding node is ever a
+		// target or on the way to one) is not to be reported as not found, whatever else fails in the set
+		for _, e := range errs {
+			if a := augAt(e); a != nil && e.class == "augment-not-found" && a.Expect == gen.C07Apply {
+				add("reported", "", "%s is reported as not found although its target exists and can have children", augDesc(a))
+			}
+		}
 		return out
 	}
 	if len(errs) > 0 {
@@ -1185,9 +1192,13 @@ func shapeOf(i int) int {
 		// a failing augment whose target a deviation removes afterwards: nothing else may fail in such a set
 		return gen.C07DevGone
 	}
-	shape := 1 + (i/2)%(gen.C07NumShapes-1)
-	if shape == gen.C07ImplicitCase && (i/2/(gen.C07NumShapes-1))%4 != 0 {
-		shape = gen.C07ChainWorst + (i/2)%2
+	// the remaining three slots of every ten (0, 1, 5) cycle through all named shapes: count them on
+	// their own, or the cycle would only ever meet the shapes whose number fits those residues
+	slot := map[int]int{0: 0, 1: 1, 5: 2}[(i/2)%10]
+	j := (i/2)/10*3 + slot
+	shape := 1 + j%(gen.C07NumShapes-1)
+	if shape == gen.C07ImplicitCase && (j/(gen.C07NumShapes-1))%4 != 0 {
+		shape = gen.C07ChainWorst + j%2
 	}
 	return shape
 }
@@ -1203,7 +1214,7 @@ func main() {
 		return
 	}
 	res := lib.NewResult("C07", f)
-	n := 4000
+	n := 3600
 	if f.Thorough() {
 		n = 120000
 	}
